@@ -45,7 +45,7 @@ func c09(c *Ctx) {
 	docB := "package x\n\n@goht B(s string) {\n\t.c[s]= s\n}\n"
 	// a template without a package clause whose first line is Go code: its very first character (0:0) is mapped text
 	docC := "var greeting = \"hi\"\n\n@goht C() {\n\t%p= greeting\n}\n"
-	uA, uB, uGo, uC := "file:///w/a.goht", "file:///w/b.goht", "file:///w/plain.go", "file:///w/c.goht"
+	uA, uB, uGo, uC := "file:///w/a.goht", "file:///w/x.goht.d/b.goht", "file:///w/plain.go", "file:///w/c.goht"
 	real := c.composeReal([]string{docA, docB, docC})
 	tA, tB, tC := tablesOf(real[docA]), tablesOf(real[docB]), tablesOf(real[docC])
 	// the generated range that is the copy of the first three characters of docC
@@ -211,12 +211,52 @@ func c09(c *Ctx) {
 			}
 		}
 	}
+	// the sibling templates are closed in the editor; their generated files are still on disk and the Go server
+	// still answers with locations in them
+	nBeforeClosed := len(ops)
+	ops = append(ops, POp{Op: "close", URI: uB}, POp{Op: "close", URI: uC})
+	var closedCases []listCase
+	for _, m := range []string{"Definition", "TypeDefinition", "Implementation", "References"} {
+		for _, order := range [][]int{{2}, {3, 2, 6}, {6, 3}} {
+			var locs []PLoc
+			for _, k := range order {
+				locs = append(locs, answers[k].loc)
+			}
+			closedCases = append(closedCases, listCase{m, locs})
+			ops = append(ops, POp{Op: "req", Method: m, URI: uA, Line: uint32(multiPos[0]), Char: uint32(multiPos[1]), Answer: locs})
+		}
+	}
 	log, err := c.runProxy(ops)
 	if err != nil || len(log) != len(ops) {
 		c.fail("C09/runner", fmt.Sprintf("the proxy did not complete the script: %v (%d of %d)", err, len(log), len(ops)), map[string]any{"ops": len(ops)})
 		return
 	}
 	c.tieProxy([][]POp{ops}, [][][]PEvent{log})
+	for k, lc := range closedCases {
+		reply := ""
+		for _, ev := range log[nBeforeClosed+2+k] {
+			if ev.Kind == "R" {
+				reply = strings.Join(ev.F, " ")
+			}
+		}
+		var want []string
+		for _, l := range lc.locs {
+			switch {
+			case l.URI == uB+".go":
+				want = append(want, uB+"@"+prng(tB.mapRangeBack(l.R)))
+			case l.URI == uC+".go":
+				want = append(want, uC+"@"+prng(tC.mapRangeBack(l.R)))
+			default:
+				want = append(want, l.URI+"@"+prng(l.R))
+			}
+		}
+		c.Rep.OracleCases++
+		c.distinct(fmt.Sprintf("%s/list-after-close/%d", lc.method, k))
+		if w := lc.method + " [" + strings.Join(want, ",") + "]"; reply != w {
+			c.fail("C09/"+lc.method+"/location-in-closed-template", lc.method+" answered with locations in the generated files of templates that were closed: reply "+reply+", expected "+w,
+				map[string]any{"answers": lc.locs, "events": rawEvents(log[nBeforeClosed+2+k]), "docA": docA})
+		}
+	}
 	// oracle for the multi-item completion: item k carries the template range of the k-th scripted range
 	{
 		reply := ""
